@@ -36,6 +36,7 @@ type E7Spec struct {
 	JSON          []JSONSpec         `json:"json_closure"`
 	NoExit        []NoExitSpec       `json:"no_exit"`
 	MethodKeyed   []FuncRuleSpec     `json:"method_keyed_maps"`
+	DottedSuffix  []FuncRuleSpec     `json:"dotted_suffix"`
 }
 
 type FuncRuleSpec struct {
@@ -134,6 +135,9 @@ func runE7(p *Program, sp *Spec, c *Collector) {
 	}
 	for _, mk := range t.MethodKeyed {
 		runMethodKeyed(p, c, mk)
+	}
+	for _, ds := range t.DottedSuffix {
+		runDottedSuffix(p, c, ds)
 	}
 	for _, n := range t.NoExit {
 		runNoExit(p, sp, c, n)
@@ -2068,5 +2072,55 @@ func runMethodKeyed(p *Program, c *Collector, a FuncRuleSpec) {
 	}
 	if n == 0 {
 		c.Ob(a.Props, "E7.method-keyed-map", "methodkeyed:"+strings.Join(a.Funcs, ","), Undecided, a.What+": no map store inside a loop over Functions found (anchor lost)", "", false)
+	}
+}
+
+
+// ---------------------------------------------------------------------------------------------
+// dotted names: a simple name is looked up among full names (the imports of a file, the classes of the project) by suffix.
+// The suffix must start at a segment boundary — strings.HasSuffix(full, "."+name) — otherwise `Helper` also matches
+// `p.r.SuperHelper`, and an empty name matches everything.
+
+func runDottedSuffix(p *Program, c *Collector, a FuncRuleSpec) {
+	n := 0
+	for _, fn := range expandFuncs(p, c, a.Funcs, a.Props...) {
+		sf := newSymFn(p, fn, 0)
+		k := 0
+		for _, b := range fn.Blocks {
+			for _, in := range b.Instrs {
+				call, ok := in.(*ssa.Call)
+				if !ok {
+					continue
+				}
+				callee := call.Call.StaticCallee()
+				if callee == nil || fullFuncName(callee) != "strings.HasSuffix" {
+					continue
+				}
+				full := sf.val(call.Call.Args[0])
+				if full.Op != "elem" {
+					continue
+				}
+				coll := binderColls[full.Name]
+				if coll == nil || coll.Op != "global" {
+					continue // only lists of full names held by the listener (imports, project classes)
+				}
+				suffix := sf.val(call.Call.Args[1])
+				k++
+				n++
+				key := fmt.Sprintf("dottedsuffix:%s #%d over %s", p.FuncKey(fn), k, shortFn(coll.Name))
+				lead := suffix
+				for lead.Op == "bin" && lead.Name == "+" {
+					lead = lead.Kids[0]
+				}
+				if str, isC := symStr(lead); isC && strings.HasPrefix(str, ".") {
+					c.Ob(a.Props, "E7.dotted-suffix", key, Discharged, "the suffix starts at a segment boundary", p.InstrPos(call), true)
+				} else {
+					c.Ob(a.Props, "E7.dotted-suffix", key, Violated, a.What+": a full name is matched against the bare suffix "+clip(suffix.String(), 80)+": a longer simple name with the same ending (SuperHelper for Helper) matches too, and an empty suffix matches every entry", p.InstrPos(call), false)
+				}
+			}
+		}
+	}
+	if n == 0 {
+		c.Ob(a.Props, "E7.dotted-suffix", "dottedsuffix:"+strings.Join(a.Funcs, ","), Undecided, a.What+": no suffix lookup found (anchor lost)", "", false)
 	}
 }
